@@ -131,12 +131,25 @@ class Translator:
             if a and a.startswith("raise_"):
                 return "raises"
             if a in ("check_version",):
+                # self.check_version((3, N), msg, node): a version gate; the node argument decides truthiness once the gate is open
+                if (len(e.args) == 3 and isinstance(e.args[0], ast.Tuple) and len(e.args[0].elts) == 2
+                        and all(isinstance(x, ast.Constant) and isinstance(x.value, int) for x in e.args[0].elts) and e.args[0].elts[0].value == 3):
+                    inner = self.classify_action(e.args[2])
+                    return f"gate:{e.args[0].elts[1].value}:{inner}"
                 return "raise?value"
         if isinstance(e, (ast.Tuple, ast.List)) and e.elts and not any(isinstance(x, ast.Starred) for x in e.elts):
             return "raise?node" if may_raise else "node"
         if isinstance(e, ast.Name):
             return "var:" + e.id
         if isinstance(e, ast.IfExp):
+            # `X if sys.version_info >= (3, K) else Y` is decided by the running interpreter, which is also the one the
+            # correspondence runs the implementation under
+            t = e.test
+            if (isinstance(t, ast.Compare) and ast.unparse(t.left) == "sys.version_info" and len(t.ops) == 1 and isinstance(t.ops[0], ast.GtE)
+                    and isinstance(t.comparators[0], ast.Tuple) and all(isinstance(x, ast.Constant) for x in t.comparators[0].elts)):
+                import sys as _sys
+
+                return self.classify_action(e.body if _sys.version_info >= tuple(x.value for x in t.comparators[0].elts) else e.orelse)
             a, b = self.classify_action(e.body), self.classify_action(e.orelse)
             good = ("node", "value")
             if a in good and b in good:
